@@ -7,7 +7,7 @@
 (* (the code's random owner choice picks one of the paths).                           *)
 EXTENDS QueryFanout, Json
 
-Rec == [owners |-> [s \in Shards |-> owners[s]], coord |-> coord, fault |-> fault, kind |-> kind,
+Rec == [owners |-> [s \in Shards |-> owners[s]], coord |-> coord, fault |-> fault, kind |-> kind, nsrc |-> nsrc,
         outcome |-> outcome, reads |-> reads, taint |-> taint, unservable |-> Unservable]
 
 Emit == Done => PrintT(<<"BEHAVIOUR", ToJson(Rec)>>)
